@@ -220,11 +220,11 @@ pub fn run(tier: &str) -> i32 {
 
   // ---- histories: the implementation may keep state of its own (a cached copy of the lines,
   // a remembered previous value) that no single transition from a freshly built state can
-  // show.  Every history of 2 (thorough: 3) actions over the 20-letter alphabet
+  // show.  Every history of 2 (thorough: 4) actions over the 20-letter alphabet
   // {press x8, release x8, P1 <- 00/10/20/30} from every (buttons, selection) state; P1 and the
   // request are judged after every action (the request is collected each time)
   {
-    let depth: usize = if rep.thorough() { 3 } else { 2 };
+    let depth: usize = if rep.thorough() { 4 } else { 2 };
     let na = 20usize;
     let apply_ref = |r: &mut Ref, a: usize| {
       if a < 8 {
@@ -250,7 +250,7 @@ pub fn run(tier: &str) -> i32 {
         let sel = (((case >> 8) & 3) as u8) << 4;
         ctx.sample(|| J::obj().set("state", J::s(format!("buttons={:02X} sel={:02X}", buttons, sel))).set("histories", J::s(format!("all {} sequences of {} actions over press/release x8 and 4 select writes, via Joypad and via IO", total_hist, depth))));
         for h in 0..total_hist {
-          let mut acts = [0usize; 3];
+          let mut acts = [0usize; 4];
           let mut x = h;
           for k in (0..depth).rev() {
             acts[k] = (x % na as u64) as usize;
